@@ -208,8 +208,9 @@ pub fn run(reg: &Registry, c: &RCase, ctx: &Ctx) -> PResult {
     if bad.is_none() {
         if m.expect_err && out == Outcome::Value {
             bad = Some(crate::engine::robust::Bad { slug: format!("{}|reported-success", c.entry), detail: format!("the call reported success although it cannot have completed ({})", if c.note.is_empty() { "the patch stream ends before its end-of-file chunk" } else { &c.note }) });
-        } else if c.reps > 1 && st.growth >= c.reps as i64 * 1024 {
-            bad = Some(crate::engine::robust::Bad { slug: format!("{}|leak", c.entry), detail: format!("heap in use grew by {} bytes over {} repetitions of the same failing call ({} bytes per call)", st.growth, c.reps - 1, st.growth / (c.reps as i64 - 1).max(1)) });
+        } else if c.reps > 1 && st.growth >= (c.reps - (c.reps / 4).max(1)) as i64 * 1024 {
+            let measured = (c.reps - (c.reps / 4).max(1)) as i64;
+            bad = Some(crate::engine::robust::Bad { slug: format!("{}|leak", c.entry), detail: format!("heap in use grew by {} bytes over the last {} of {} repetitions of the same call ({} bytes per call)", st.growth, measured, c.reps, st.growth / measured.max(1)) });
         }
     }
     let _ = input_len;
